@@ -72,11 +72,11 @@ ASSUMPTIONS = [
     "demands both refusals, and the recorder refuses to run a decref with a non-int count (`unobservable`); HANDLE_DEL "
     "with a count below 1 (raised the stored count), class_factory / vinegar.load running a module-level __getattr__ with "
     "a peer-chosen name: all followed in the model",
-    "two reported weaknesses of the pinned code are NOT part of the statement until repaired (evidence: coverage.measured, "
+    "one reported weakness of the pinned code is NOT part of the statement until repaired (evidence: coverage.measured, "
     "ratchet EXPECTED_FIXED): HANDLE_CMP consults the connection's policy on type(obj), not the object's own "
-    "_rpyc_getattr, so a safe-listed operator the object's hook denies still runs (build-c06's finding); class_factory reads "
-    "`__class__` of ANY module-level object of a loaded module the peer names and stores it as the proxy's class "
-    "(fixes/C07-class-factory-types-only.patch)",
+    "_rpyc_getattr, so a safe-listed operator the object's hook denies still runs (build-c06's finding). Repaired and now "
+    "demanded (canary handlers_world.SPY, ratchet set): class_factory read `__class__` of ANY module-level object of a "
+    "loaded module the peer named and stored it as the proxy's class",
 ]
 EXPLANATION = (
     "Theorems (Lean, for every environment, every finite sequence of bursts of arbitrary decoded values / undecodable "
@@ -428,7 +428,7 @@ def _cross_connection_probe(s, g, r):
 # (in the canary cross-check of the correspondence and in the direct oracle) are armed as soon as EITHER this says so or the
 # code is measured to behave (handlers_world.measured); once an entry is True here, measuring False is itself a failure -
 # so a repair is picked up without a false alarm, and its later loss is caught.
-EXPECTED_FIXED = dict(cmp_respects_object_hook=False, class_factory_reads_no_module_object=False)
+EXPECTED_FIXED = dict(cmp_respects_object_hook=False, class_factory_reads_no_module_object=True)
 
 
 def armed(key):
@@ -584,7 +584,15 @@ def oracle_session(seed, index, n_bursts=None):
                         if bad and len(problems) < 4:
                             problems.append("after %s the peer holds a reference to an object of the serving process that was never "
                                             "sent to it: %s" % (repr(m)[:220], ", ".join(bad[:3])))
-                    if refuse and (len(hw.HITS.keys_calls), len(hw.HITS.special)) != before:
+                    # (answers travelling with the request may hand the server's own objects back to it - e.g. as the
+                    # method list of a HANDLE_INSPECT reply, which class_factory iterates: that is not the handler's doing)
+                    answers_lend = False
+                    for _k2, a in group[1:]:
+                        try:
+                            answers_lend = answers_lend or (a[0] == 2 and bool(list(_local_refs(a[2]))))
+                        except Exception:  # noqa
+                            answers_lend = True
+                    if refuse and not answers_lend and (len(hw.HITS.keys_calls), len(hw.HITS.special)) != before:
                         problems.append("%s made the protocol run %r on a held object: %s" % (
                             refuse, (hw.HITS.keys_calls[before[0]:] + hw.HITS.special[before[1]:])[:3], repr(m)[:200]))
                 g.learn(got_all)
